@@ -172,6 +172,12 @@ where
                     b.parts.subpath = s.as_str().into();
                     b
                 },
+                Call::PartsQualsFromIter(pairs) => {
+                    if let Ok(q) = purl::Qualifiers::try_from_iter(pairs.iter().map(|(k, v)| (k.as_str(), v.as_str()))) {
+                        b.parts.qualifiers = q;
+                    }
+                    b
+                },
                 Call::PartsQual(k, v) => {
                     let _ = b.parts.qualifiers.insert(k.as_str(), v.as_str());
                     b
